@@ -278,6 +278,22 @@ def _classify_enter_arg(fn: Func, p: flow.Path, ev: flow.Event, arg, kinds, hold
                     f"falls back to the unmodified state when exit refuses, but {rejecting_holders} hold a resource and may refuse")
         return "ok", ("paired with fallback: when exit refuses (None state) the unmodified state is used; every activity whose exit "
                       "may refuse releases nothing of " + "/".join(sorted(kinds)))
+    # the same fallback written as an if-statement: on this path exit produced NO state (tested) and enter gets the
+    # unmodified state
+    if isinstance(arg, ast.Name) and arg.id == sim_param:
+        for e2 in p.events:
+            if e2.name == "exit" and not e2.deferred and e2.raw.lineno <= ev.raw.lineno:
+                st_slot = ast.Subscript(value=e2.call, slice=ast.Constant(value=1), ctx=ast.Load())
+                d_st = ast.dump(st_slot)
+                refused = any((flow.is_syn(a, "$isnone") and pol is True and ast.dump(a.args[0]) == d_st) or (ast.dump(a) == d_st and pol is False) for a, pol in p.facts())
+                if refused:
+                    if not exit_tested(st_slot):
+                        return "exit-error-ignored", "enter runs although exit's error was not tested on this path"
+                    if rejecting_holders:
+                        return ("fallback-skips-release",
+                                f"falls back to the unmodified state when exit refuses, but {rejecting_holders} hold a resource and may refuse")
+                    return "ok", ("paired with fallback (if-statement form): exit refused on this path (None state), the unmodified state is used; every "
+                                  "activity whose exit may refuse releases nothing of " + "/".join(sorted(kinds)))
     # (c) unpaired
     if holders:
         return "unpaired", f"enter without the previous activity's exit; activities holding {sorted(kinds)}: {holders}"
@@ -1285,3 +1301,66 @@ def _same_activity_update(fn: Func, arg: ast.AST, state_names: Set[str]):
         # whether the rest of that state is kept is the lineage rule's business
         return True, f"an activity read from a vehicle record: {d}"
     return False, d
+
+
+# ------------------------------------------------------------------------------------------ fold recognition
+def recognise_folds(fn: Func):
+    """The folds a function performs, in either spelling: `reduce(F, XS, INIT)` anywhere in a returned value, or a loop
+    `acc = INIT; for x in XS: acc = F(acc, x)` whose accumulator reaches the result (seen as: the path that enters the loop
+    returns F(A, $elem(XS)) where the path that skips it returns A). -> list of (F, XS, INIT) as expanded expressions."""
+    out = []
+    seen = set()
+    ps = [p for p in flow.paths(fn.node) if p.kind == "return" and p.value is not None]
+    for p in ps:
+        for c in flow.calls_in(p.value, "reduce"):
+            if len(c.args) >= 3:
+                k = ast.dump(c)
+                if k not in seen:
+                    seen.add(k)
+                    out.append((c.args[0], c.args[1], c.args[2]))
+    skip_vals = {}
+    for p in ps:
+        for sub in ast.walk(p.value):
+            skip_vals.setdefault(ast.dump(sub), sub)
+    for p in ps:
+        for c in ast.walk(p.value):
+            if isinstance(c, ast.Call) and isinstance(c.func, ast.Name) and len(c.args) == 2 and flow.is_syn(c.args[1], "$elem") and not c.keywords:
+                acc0 = c.args[0]
+                # the same function must also have a path on which the accumulator is returned un-folded (loop skipped)
+                if ast.dump(acc0) in skip_vals and any(cd.pol == "iter" for cd in p.conds):
+                    k = ("loop", ast.dump(c))
+                    if k not in seen:
+                        seen.add(k)
+                        out.append((c.func, c.args[1].args[0], acc0))
+    return out
+
+
+def reducer_expr(repo: Repo, fn: Func, F: ast.AST) -> ast.AST:
+    """What one step of a fold computes, as an expression over the canonical names `ACC` (accumulator) and `X` (element),
+    whichever way the reducer is spelled: a two-parameter lambda, the name of a (nested / module-level) function whose body
+    is an expression (assignments + return / if-else of returns), `ft.partial(G, k=v)`, or an opaque callable (then
+    `F(ACC, X)`)."""
+    from . import inline as _inl
+
+    ACC, X = ast.Name(id="ACC", ctx=ast.Load()), ast.Name(id="X", ctx=ast.Load())
+    F = flow.core(F)
+    if isinstance(F, ast.Lambda):
+        ps = [a.arg for a in F.args.posonlyargs + F.args.args]
+        if len(ps) == 2:
+            return _inl._sub(F.body, {ps[0]: ACC, ps[1]: X})
+    if isinstance(F, ast.Call) and (dotted(F.func) or "").endswith("partial") and F.args:
+        inner = reducer_expr(repo, fn, F.args[0])
+        if isinstance(inner, ast.Call) and not isinstance(F.args[0], ast.Lambda):
+            return ast.Call(func=inner.func, args=inner.args + list(F.args[1:]), keywords=list(inner.keywords) + list(F.keywords))
+    if isinstance(F, ast.Name):
+        cand = None
+        f = fn
+        while f is not None and cand is None:
+            cand = fn.module.funcs.get(f"{f.qualname}.{F.id}")
+            f = f.outer
+        cand = cand or (fn.module.funcs.get(F.id) if fn.module.funcs.get(F.id) is not None and fn.module.funcs[F.id].cls is None else None)
+        if cand is not None and len(cand.params) == 2:
+            e = _inl._tail_expr(list(cand.node.body), {cand.params[0]: ACC, cand.params[1]: X})
+            if e is not None and _inl._size(e) <= 200 and len(list(cand.node.body)) <= 3:
+                return e
+    return ast.Call(func=F, args=[ACC, X], keywords=[])
